@@ -19,7 +19,7 @@ from common import Check
 
 PID = "C04"
 WORKERS = min(8, common.NCPU)
-IBITS = ["centre_far", "both_scaled", "in_near", "circ_far", "bbox_overlap", "surf_collide", "both_convex",
+IBITS = ["centre_far", "both_scaled", "in_near", "circ_far", "bbox_overlap", "surf_collide", "a_convex", "b_convex",
          "single_bodies", "a_has_b_point", "b_has_a_point", "bool_nonempty"]
 CBITS = ["c_bbox_overlap", "c_convex", "c_bb_corners_in", "c_vertices_in", "c_have_obj_point", "c_obj_point_in",
          "c_ball_fits", "c_have_reg_point", "c_too_far", "c_diff_empty"]
@@ -50,10 +50,45 @@ def gen_pose(rng, kind):
     return dict(yaw=rng.uniform(-math.pi, math.pi), pitch=rng.uniform(-1.5, 1.5), roll=rng.uniform(-math.pi, math.pi))
 
 
+def gen_assembly(rng, scale=1.0):
+    """one-body NON-CONVEX shapes assembled from overlapping axis-aligned boxes (manifold union): L, U, C (unequal
+    arms), T, box with a slot.  `pieces` are the convex pieces (exact ground truth is computed piecewise), `cavity`
+    (U/C/slot) is the empty box between the arms (inside the bounding box and the hull, outside the solid)."""
+    kind = rng.choice(["L", "U", "U", "C", "slot", "T"])
+    t, h = rng.uniform(0.6, 1.2), rng.uniform(0.6, 2.0)
+    a, b = rng.uniform(2.5, 4.5), rng.uniform(2.0, 4.0)
+    cav = None
+    if kind == "L":
+        pieces = [([a, t, h], [a / 2, t / 2, 0.0]), ([t, b, h], [t / 2, b / 2, 0.0])]
+    elif kind == "T":
+        pieces = [([a, t, h], [0.0, 0.0, 0.0]), ([t, b, h], [rng.uniform(-a / 4, a / 4), -b / 2 + t / 4, 0.0])]
+    else:
+        tb = t if kind != "slot" else rng.uniform(1.5, 3.0)        # slot: thick base, i.e. a block with a slot cut in
+        b1 = b + tb
+        b2 = b1 if kind != "C" else tb + rng.uniform(0.8, 3.5)
+        h1, h2 = (h * rng.uniform(0.6, 1.4), h * rng.uniform(0.6, 1.4)) if rng.random() < 0.5 else (h, h)
+        t1, t2 = t, (t if kind != "slot" else rng.uniform(0.6, 1.5))
+        if a - t1 - t2 < 0.5:
+            a = t1 + t2 + rng.uniform(0.5, 1.5)
+        pieces = [([a, tb, h], [a / 2, tb / 2, 0.0]), ([t1, b1, h1], [t1 / 2, b1 / 2, 0.0]), ([t2, b2, h2], [a - t2 / 2, b2 / 2, 0.0])]
+        cl = min(b1, b2) - tb
+        cav = ([a - t1 - t2, cl, min(h, h1, h2)], [(t1 + a - t2) / 2, tb + cl / 2, 0.0])
+    o = dict(shape="lshape", form=kind, pieces=[dict(ext=[x * scale for x in e], off=[x * scale for x in f]) for e, f in pieces])
+    if cav:
+        o["cavity"] = dict(ext=[x * scale for x in cav[0]], off=[x * scale for x in cav[1]])
+    lo = [min(p["off"][k] - p["ext"][k] / 2 for p in o["pieces"]) for k in range(3)]
+    hi = [max(p["off"][k] + p["ext"][k] / 2 for p in o["pieces"]) for k in range(3)]
+    o["size"] = math.sqrt(sum((hi[k] - lo[k]) ** 2 for k in range(3))) / 2     # circumradius about the bounding-box centre
+    return o
+
+
 def gen_shape(rng, allow_nonconvex=True, lo=0.5, hi=4.0):
-    k = rng.choice(["box", "box", "cylinder", "cone", "spheroid"] + (["multi", "lshape"] if allow_nonconvex else []))
+    k = rng.choice(["box", "box", "cylinder", "cone", "spheroid"] + (["multi", "lshape", "assembly"] if allow_nonconvex else []))
     o = dict(shape=k)
-    if k == "multi":
+    if k == "assembly":
+        o = gen_assembly(rng)
+        o["size"] = o["size"] * 0.7      # pairs "around contact" are placed relative to this: keep the arms in reach
+    elif k == "multi":
         e1 = [rng.uniform(0.5, 2) for _ in range(3)]
         e2 = [rng.uniform(0.5, 2) for _ in range(3)]
         gapx = rng.uniform(0.3, 2.0)
@@ -101,6 +136,68 @@ def gen_pair(rng, idx):
             b["pos"] = [a["pos"][0] + rng.uniform(-0.3, 0.3), a["pos"][1] + rng.uniform(-0.3, 0.3),
                         a["pos"][2] + rng.choice([-1, 1]) * rng.uniform(0.3, 2.2) * (a["dims"][2] + b["dims"][2]) / 2]
     return dict(id=f"pr{idx}", a=a, b=b, s=s)
+
+
+def small_guest(rng, room, nonconvex=False):
+    """a shape whose circumradius about its centre is < room (so it fits strictly inside a box of half-extent >= room
+    + margin in every pose)"""
+    if nonconvex:
+        g = gen_assembly(rng, 1.0)
+        sc = rng.uniform(0.5, 0.95) * room / g["size"]
+        g = gen_assembly_scaled(g, sc)
+    else:
+        k = rng.choice(["box", "box", "cylinder", "cone", "spheroid"])
+        dmax = rng.uniform(0.3, 0.95) * room * 2 / math.sqrt(3)
+        dims = [dmax * rng.uniform(0.4, 1.0) for _ in range(3)]
+        g = dict(shape=k, dims=dims, size=math.sqrt(sum(d * d for d in dims)) / 2)
+    g.update(gen_pose(rng, rng.choice(["axis", "planar", "general", "general", "general"])))
+    return g
+
+
+def gen_assembly_scaled(g, sc):
+    o = dict(g, pieces=[dict(ext=[x * sc for x in p["ext"]], off=[x * sc for x in p["off"]]) for p in g["pieces"]], size=g["size"] * sc)
+    if "cavity" in g:
+        o["cavity"] = dict(ext=[x * sc for x in g["cavity"]["ext"]], off=[x * sc for x in g["cavity"]["off"]])
+    return o
+
+
+def gen_nested(rng, idx):
+    """NESTED configurations: a guest strictly inside the solid of a host (or strictly inside its cavity) WITHOUT
+    surface contact: the spheres / boxes / FCL surface passes cannot decide these, only the interior-point and
+    boolean passes (or FCL's solid treatment of convex geometry) can.  The guest's position is given in the host's
+    local frame (`rel_local`, resolved by the implementation side, which reports the world position)."""
+    mode = rng.choice(["convex-in-arm"] * 5 + ["nonconvex-in-arm"] * 2 + ["nonconvex-in-convex"] * 2 + ["in-cavity"] * 2)
+    margin = 0.03
+    if mode == "nonconvex-in-convex":
+        k = rng.choice(["box", "spheroid", "cylinder"])
+        guest = gen_assembly(rng, rng.uniform(0.4, 1.0))
+        guest.update(gen_pose(rng, rng.choice(["axis", "planar", "general", "general"])))
+        r = guest["size"]
+        dims = [2 * (r + margin) * rng.uniform(1.5, 2.5) for _ in range(3)]    # inscribed ball of every kind >= min(dims)/2 / ... see below
+        host = dict(shape=k, dims=dims, size=max(dims) / 2)
+        # a ball of radius r fits at offset d from the centre when |d| + r <= min half-extent (box, cylinder) or the
+        # spheroid's smallest semi-axis: stay within that
+        room = min(dims) / 2 - r - margin
+        d = [rng.uniform(-1, 1) for _ in range(3)]
+        n = math.sqrt(sum(x * x for x in d)) or 1.0
+        f = rng.uniform(0, 0.9) * room
+        guest["rel_local"] = [f * x / n for x in d]
+        host.update(gen_pose(rng, rng.choice(["axis", "planar", "general", "general"])))
+    else:
+        host = gen_assembly(rng, rng.choice([1.0, 1.0, rng.uniform(1.0, 3.0)]))
+        while mode == "in-cavity" and "cavity" not in host:
+            host = gen_assembly(rng, 1.0)
+        host.update(gen_pose(rng, rng.choice(["axis", "planar", "general", "general", "general"])))
+        cell = host["cavity"] if mode == "in-cavity" else rng.choice(host["pieces"])
+        room = min(cell["ext"]) / 2 - margin
+        guest = small_guest(rng, room * rng.uniform(0.3, 0.9), nonconvex=(mode == "nonconvex-in-arm"))
+        free = [cell["ext"][k] / 2 - guest["size"] - margin for k in range(3)]
+        guest["rel_local"] = [cell["off"][k] + rng.uniform(-1, 1) * free[k] for k in range(3)]
+        if mode != "in-cavity":
+            guest["host_piece"] = host["pieces"].index(cell)
+    host["pos"] = [rng.uniform(-100, 100) for _ in range(3)] if rng.random() < 0.5 else [0.0, 0.0, 0.0]
+    a, b = (host, guest) if rng.random() < 0.5 else (guest, host)
+    return dict(id=f"pr{idx}", a=a, b=b, nested=mode)
 
 
 def gen_contain(rng, idx):
@@ -202,8 +299,8 @@ def main():
     exe = common.build_ocaml(PID)
     quick = c.tier == "quick"
     rng = c.rng
-    n_pr, n_cn = (160, 140) if quick else (8000, 6000)
-    pairs = [gen_pair(rng, i) for i in range(n_pr)]
+    n_pr, n_ne, n_cn = (150, 70, 130) if quick else (6000, 3000, 5000)
+    pairs = [gen_pair(rng, i) for i in range(n_pr)] + [gen_nested(rng, n_pr + i) for i in range(n_ne)]
     conts = [gen_contain(rng, i) for i in range(n_cn)]
     if c.replay:
         body = json.load(open(c.replay))
@@ -232,7 +329,10 @@ def main():
             if r is None or "crash" in r:
                 c.violation("harness", "implementation driver crashed", dict(case=case, crash=(r or {}).get("crash"), tb=(r or {}).get("tb")), no_input=True)
                 continue
-            c.hist("pair:shapes:" + "+".join(sorted([case["a"]["shape"], case["b"]["shape"]])))
+            shp = lambda o: o["shape"] + ("-" + o["form"] if "form" in o else "")
+            c.hist("pair:shapes:" + "+".join(sorted([shp(case["a"]), shp(case["b"])])))
+            if case.get("nested"):
+                c.hist("pair:nested:" + case["nested"])
             if "exc" in r:
                 c.violation("exception", "an overlap query raised", dict(case=case, exc=r["exc"]))
                 continue
@@ -255,10 +355,10 @@ def main():
             c.count((case["a"], case["b"]), nontrivial=truth_val is not None)
             if truth_val is not None:
                 c.cov["traces_validated_against_impl"] += 1
-                for key in ("obj_intersects", "obj_intersects_rev", "vol_intersects"):
+                for key in ("obj_intersects", "obj_intersects_rev", "vol_intersects", "vol_intersects_rev"):
                     if r[key] != truth_val:
                         c.violation("overlap", f"{key} disagrees with certified exact geometry",
-                                    dict(case=case, query=key, impl=r[key], truth=truth_val, margin=truth["certs"][0].get("margin"), oracles=r.get("oracles")))
+                                    dict(case=case, query=key, impl=r[key], truth=truth_val, margin=truth["certs"][0].get("margin"), guest_pos=r.get("guest_pos"), oracles=r.get("oracles")))
                 md = r["min_dist"]
                 if truth_val and md > 0:
                     c.violation("min-distance", "positive minimum distance reported for overlapping objects", dict(case=case, impl=md))
@@ -268,6 +368,22 @@ def main():
                         c.violation("min-distance", "minimum distance differs from the certified gap", dict(case=case, impl=md, gap=r["gap"]))
                 elif not truth_val and md <= 0:
                     c.violation("min-distance", "non-positive minimum distance reported for disjoint objects", dict(case=case, impl=md))
+            # nested family: the guest lies strictly inside one convex piece of the host (certificate inside_clear, checked
+            # exactly): it overlaps the host (also certified by the common point above) and the host's region contains it
+            nc = r.get("nested_cert")
+            if nc is not None and nc["slack"] > 4e-6:
+                m = nc["slack"] / 2
+                okc = drv([f"INC {hx(m)} {hx(m / 4)} {Hs(dict(n=nc['n'], d=nc['d']))} {V(nc['verts'])}"])[0] == "1" and truth_val is not None
+                c.hist("pair:nested-certificate:" + ("accepted" if okc else "rejected"))
+                if okc:
+                    if not truth_val:
+                        c.violation("harness", "strict-inside certificate accepted for a pair certified disjoint", dict(case=case), no_input=True)
+                    if r.get("host_contains_guest") is False:
+                        c.violation("containment", "containsObject of the host's occupiedSpace rejects a guest certified strictly inside one of its convex pieces",
+                                    dict(case=case, guest_pos=r.get("guest_pos"), slack=nc["slack"]))
+            if case.get("nested") == "in-cavity" and truth_val is False and r.get("host_contains_guest"):
+                c.violation("containment", "containsObject of the host's occupiedSpace accepts a guest certified disjoint from it (inside its cavity)",
+                            dict(case=case, guest_pos=r.get("guest_pos")))
             # cascade model vs implementation, and every shortcut vs truth / last pass
             o = r.get("oracles")
             if o is None:
@@ -295,7 +411,7 @@ def main():
                 claims.append(("pass2B-bbox", False))
             if o["surf_collide"]:
                 claims.append(("pass3-fcl-hit", True))
-            elif o["both_convex"]:
+            elif o["a_convex"] and o["b_convex"]:
                 claims.append(("pass3-fcl-convex", False))
             elif o["single_bodies"]:
                 claims.append(("pass4-interior-points", o["a_has_b_point"] or o["b_has_a_point"]))
